@@ -112,9 +112,20 @@ def dump(obj: Any, fp, **kwargs):
             fp.write(json_bytes)
         except Exception as e:
             logger.debug(f"orjson failed, falling back to stdlib json: {e}")
-            _stdlib_json.dump(obj, fp, **kwargs)
+            _stdlib_dump(obj, fp, **kwargs)
     else:
-        _stdlib_json.dump(obj, fp, **kwargs)
+        _stdlib_dump(obj, fp, **kwargs)
+
+
+def _stdlib_dump(obj: Any, fp, **kwargs):
+    """stdlib json.dump that, like the orjson path, also accepts a binary file."""
+    try:
+        fp.write("")
+    except TypeError:
+        # Binary file: the orjson backend writes bytes to it, so must we
+        fp.write(_stdlib_json.dumps(obj, **kwargs).encode("utf-8"))
+        return
+    _stdlib_json.dump(obj, fp, **kwargs)
 
 
 def load(fp) -> Any:
